@@ -295,8 +295,8 @@ class TvarsStream(Stream):
             "load_template_vars -> put_workflow_template_vars -> DB -> load_workflow_params_and_tmpl_vars/_load_template_vars "
             "with CLI overrides, plus get_template_vars_from_db; mutated and hand-written literal texts through eval_var; "
             "non-trivial = some value is a container or a string needing an escape or a non-integer number")
-    n_hashseeds = 4
-    shard_size = 60
+    n_hashseeds = 6
+    shard_size = 30
     needs_scratch_home = True
 
     def corpus(self):
